@@ -101,6 +101,13 @@ func BuildArena(dst string) error {
 		}
 		return os.WriteFile(p, []byte(s), 0o644)
 	}
+	if strings.HasPrefix(d, "/w/alias/") {
+		// the destination is spelled through a symlinked path component
+		os.MkdirAll("/w/real", 0o755)
+		if _, err := os.Lstat("/w/alias"); err != nil {
+			os.Symlink("real", "/w/alias")
+		}
+	}
 	steps := []error{
 		mk("/w"), mk("/tmp"), mk("/cwd"), mk(d),
 		wr(d+"-evil/keep", "OUT-evil-keep"),
@@ -232,7 +239,11 @@ func Run(sc *uw.Scenario) *simkit.Outcome {
 		}
 		log.Add(0, "archive", fmt.Sprintf("#%d entries=%d classes=%s gz=%d", ai, len(dec), strings.Join(classes, ","), len(gz)))
 
-		before := simkit.Snapshot(dstClean)
+		excl := []string{dstClean}
+		if realDst != dstClean {
+			excl = append(excl, realDst)
+		}
+		before := simkit.Snapshot(excl...)
 		log.Add(0, "op-start", fmt.Sprintf("unpack #%d", ai))
 		var uerr error
 		var pan interface{}
@@ -253,7 +264,7 @@ func Run(sc *uw.Scenario) *simkit.Outcome {
 			}
 			uerr = p.Unpack(rd, dst)
 		}()
-		after := simkit.Snapshot(dstClean)
+		after := simkit.Snapshot(excl...)
 		es := "nil"
 		if uerr != nil {
 			es = simkit.CanonString(uerr.Error())
